@@ -1,0 +1,12 @@
+//go:build verif
+
+package runtime
+
+import "github.com/arnodel/golua/code"
+
+// VerifCodeFields exposes the unexported fields of a function prototype to the
+// verification harness (property C13).  Read-only: the slices returned are the
+// prototype's own and must not be modified by the caller.
+func VerifCodeFields(c *Code) (source, name string, ops []code.Opcode, lines []int32, consts []Value) {
+	return c.source, c.name, c.code, c.lines, c.consts
+}
